@@ -1,7 +1,6 @@
 package c14
 
 import (
-	"context"
 	"fmt"
 	"strconv"
 	"strings"
@@ -36,7 +35,8 @@ func acDigest(call, hash, size string) *remoteexecution.Digest {
 
 func (w *world) execAC(line string) string {
 	f := strings.Fields(line)
-	ctx := context.Background()
+	ctx, cancel := opContext()
+	defer cancel()
 	inst, fn := callParams(f[1])
 	return guard(func() string {
 		switch f[0] {
